@@ -52,6 +52,9 @@ PROPS_EQ = {
                         'outermost solver or the last inner composition solve of that call leave unconverged '
                         '(iteration cap / growing-error exit, silent in thermosteam): listed finding KF-C04-5 '
                         '(region C04-silent-iteration-cap, about 4 % of calls)',
+                        'scaling clause of calls whose pressure is an output (T-V, T-H, T-S): when the two pressures '
+                        'lie within 2 x P_tol of each other the flow bound is widened by the measured sensitivity '
+                        'd(flows)/dP (two brand-new T-P flashes around the returned pressure) x 2 x P_tol',
                         'seeded sampling inside the stated input domain, not exhaustive'],
         'components': COMPONENTS_EQ,
     },
